@@ -191,8 +191,8 @@ SPECS["C05"] = {
 # ---------------------------------------------------------------------------------------------- C06 / C07
 def plan_c06(tier, seed):
     if tier == "quick":
-        return checks("main", 8, 30000)
-    return checks("main", 14, 150000) + checks("nohook_avx2", 2, 100000)
+        return checks("main", 8, 30000) + shards("main", "long-strings", 4)
+    return checks("main", 14, 150000) + checks("nohook_avx2", 2, 100000) + shards("main", "long-strings", 4) + shards("nohook_avx2", "long-strings", 2)
 
 
 SPECS["C06"] = {
@@ -202,6 +202,7 @@ SPECS["C06"] = {
     },
     "default_build": "main",
     "plan": plan_c06,
+    "exhaustive_enums": ["long-strings"],
     "rule": ("case = entropy bytes -> (model tree with container top level: strings over the whole scalar range incl. U+0000 and astral planes, "
              "numerals from the RFC grammar within range incl. 2^63/2^64 boundaries, -0, exponents; duplicate keys; depth <= 7) and an independent "
              "spelling (whitespace at every legal place, short escapes, \\uXXXX in upper/lower/mixed hex, surrogate pairs), encoded to UTF-8/16/32; "
@@ -716,7 +717,8 @@ RULE_ADDENDA = {
     "C03": "; the parsed form reaches the renderer directly, through a caller-owned tag cache, through a copy-constructed cache or through a cache copy-assigned over "
            "another template's tags (chosen by the template text)",
     "C04": "; one case in forty nests parentheses 254..1000 deep (left-nested, right-nested, redundant pairs, alternating)",
-    "C06": "; one case in three draws strings with look-alike code points (U+0100|c: one UTF-16/32 unit whose low byte is a quote, backslash, bracket, control ...) and "
+    "C06": "; enumerated: strings of 255 .. 1,048,577 units with an escape at the start / middle / end / nowhere, as array element, member value and member key, "
+           "3 widths (468 documents), decoded content compared unit for unit; one case in three draws strings with look-alike code points (U+0100|c: one UTF-16/32 unit whose low byte is a quote, backslash, bracket, control ...) and "
            "numerals thousands of characters long whose exponent compensates their own zeros, or 17-digit spellings of doubles from the least-slack binades",
     "C07": "; one case in three draws look-alike code points and unpaired low-surrogate escapes (legal by the grammar) into the strings",
     "C09": "; near-tie class (midpoints between adjacent doubles cut to 17-21 digits, just below and just above), numerals whose exponent compensates their length "
